@@ -140,7 +140,7 @@ def check_semantics(log: List[dict], meta: Dict[str, Any]) -> Tuple[List[Viol], 
         arr, ret = arrivals[0], rets[0]
         if sem == 'STS':
             counts['sts_events'] += 1
-            if posts:
+            if [p for p in posts if p['seq'] < ret['seq']]:
                 viols.append(('sts-event-passes-through-dispatcher', detail))
             if arr['disp'] or arr['thr'] != call_rec['thr']:
                 viols.append(('sts-event-runs-on-another-thread', detail))
